@@ -48,7 +48,10 @@ def convert_array_1d(
 
     if is_native == store_native:
         if is_native:
-            return array_1d * np.invert(np.array(mask_1d))
+            # zero by assignment, not by a product with the inverted mask (inf * 0 = NaN at a masked pixel)
+            array_1d = np.array(array_1d)
+            array_1d[np.array(mask_1d, dtype="bool")] = 0
+            return array_1d
         return array_1d
     elif not store_native:
         return array_1d_slim_from(
